@@ -187,6 +187,11 @@ def cases(spec, ctx):
         strand = "." if r < 0.05 else ("+" if r < 0.5 else "-")
         yield {"kind": "random", "blocks": blocks, "strand": strand, "alpha": alpha, "genome": forced_genome(rng, gl, alpha),
                "mode": rng.choice(MODES), "compound": rng.random() < 0.3, "seed": rng.randrange(1 << 30)}
+    # -- twin genomes (one or two per shard): two parents with the same id whose sequences have the same length and the same first and
+    # last thousands of bases and differ in a few bases in the middle, extracted from in one process (either order)
+    trng = __import__("random").Random(f"C03-twin:{ctx.seed}:{i}")
+    for n_t in ((70000,) if i % 2 else ((1 << 20) + 9,)):
+        yield {"kind": "twin-genome", "n": n_t, "seed": trng.randrange(1 << 30), "alpha": "NT_STRICT", "genome": ""}
     # -- scale legs (own stream): long genomes with locations far from the origin, and locations of 9..30 blocks
     srng = __import__("random").Random(f"C03-scale:{ctx.seed}:{i}")
     for k in range(sc["NR"] // (10 * n) + 1):
@@ -600,6 +605,32 @@ def run_case(case, ctx):
     genome = case["genome"]
     alpha = case["alpha"]
     sc = SCOPE[ctx.tier]
+
+    if kind == "twin-genome":
+        from inscripta.biocantor.parent import Parent
+        from inscripta.biocantor.sequence import Sequence, Alphabet
+
+        rng = random.Random(case["seed"])
+        n = case["n"]
+        unit = "".join(rng.choice("ACGT") for _ in range(97))
+        a = (unit * (n // 97 + 1))[:n]
+        mid = n // 2
+        flip = {"A": "C", "C": "G", "G": "T", "T": "A"}
+        b = a[:mid - 3] + "".join(flip[c] for c in a[mid - 3:mid + 3]) + a[mid + 3:]
+        ctx.note(("twin-genome", n), nontrivial=True, klass="twin-genome")
+        order = [("first", a), ("second", b)] if rng.random() < 0.5 else [("first", b), ("second", a)]
+        blocks = ((mid - 10, mid - 1), (mid + 1, mid + 12))
+        for strand in "+-":
+            for label, data in order + order:      # each genome asked twice: the second round sees whatever the first one cached
+                parent = Parent(id="chrTwin", sequence=Sequence(data, Alphabet.NT_STRICT, id="chrTwin", type="chromosome"))
+                want = SM.extract(PM.positions(blocks, strand), strand, data)
+                r, e = ctx.call(G.build(blocks, strand, parent=parent).extract_sequence)
+                ctx.check("extract.image", e is None and str(r) == want, key=("twin-genome", label, strand), n=n, got=None if r is None else str(r), want=want,
+                          exc=repr(e)[:200] if e else None)
+                r, e = ctx.call(G.build(((mid - 2, mid + 2),), strand, parent=parent).extract_sequence)
+                want1 = SM.extract(PM.positions(((mid - 2, mid + 2),), strand), strand, data)
+                ctx.check("extract.image", e is None and str(r) == want1, key=("twin-genome-single", label, strand), n=n, got=None if r is None else str(r), want=want1)
+        return
 
     if kind == "alphabet":
         from inscripta.biocantor.sequence import Sequence, Alphabet
